@@ -900,9 +900,10 @@ fn analyze_partial_pattern(
         value_type_id,
     )?;
 
-    // Check if the original value type could be multiple types (for adding type checks)
-    let value_type_sources = extract_field_sources(program, value_type_id);
-    let needs_type_check = value_type_sources.len() > 1;
+    // A runtime type check is needed whenever the value could be anything other than the variant
+    // being matched. That includes the non-tuple variants of a union (`'bin | R[x: 'int]`), which
+    // are not field sources: without the check the field access would run on a binary or integer.
+    let needs_type_check = is_union(value_type_id, program);
 
     // Narrowed type accumulated per matchable variant, reconstructed with field-level precision so
     // a later branch's complement reflects the field check (e.g. `mode: R | A` after `=(mode: W)`).
@@ -1115,8 +1116,10 @@ fn analyze_star_pattern(
     };
 
     // If the value could be one of several variants at runtime, a type check is needed to
-    // discriminate the matching variant (and, for a named star, to enforce the name).
-    let needs_type_check = all_sources.len() > 1;
+    // discriminate the matching variant (and, for a named star, to enforce the name). Count every
+    // variant of a union, not only the field sources: a binary or integer variant has no fields to
+    // read either.
+    let needs_type_check = is_union(value_type_id, program);
 
     // Create a binding set for each matching field source
     let mut binding_sets = vec![];
